@@ -45,9 +45,16 @@ def rewrite_budget(budget, trace=False):
         c['budget'] = None
 
 
+_quiet = []
+
+
 def quiet():
+    'silence treelog for this process (the setter must stay referenced or the previous log is restored)'
     import treelog
-    treelog.set(treelog.NullLog()).__enter__() if hasattr(treelog, 'NullLog') else None
+    if not _quiet:
+        setter = treelog.set(treelog.NullLog())
+        setter.__enter__()
+        _quiet.append(setter)
 
 
 def compile_(node, simplify=True, optimize=True, cache=False, stats=None):
